@@ -9,6 +9,7 @@ package main
 
 import (
 	"fmt"
+	"go/token"
 	"go/types"
 	"strings"
 
@@ -359,4 +360,99 @@ func isNodesMap(v ssa.Value) bool {
 	}
 	name, _, _ := fieldName(fa)
 	return name == "nodes" && typeIs(fa.X.Type(), "datastore", "dagT")
+}
+
+// ---------------------------------------------------------------------------------------------
+// R13.10 — a move keeps the per-body list current in every label case
+
+func init() {
+	register(ruleDef{ID: "R13.10", Prop: "C13", Tier: "quick", Floor: 4,
+		Title: "moving an element updates the per-body element list in every case in which the element lies in a body: for each combination (same body / different bodies / from or to background) with a non-zero label, every success exit of the label half of a move lies behind a write of a label list",
+		Fn:    ruleMoveLabelCases})
+}
+
+func ruleMoveLabelCases(r *Run) {
+	w := r.W
+	f := w.method("datatype/annotation", "Data", "moveElementInLabels")
+	if f == nil || len(f.Blocks) == 0 {
+		r.violation("annotation.Data.moveElementInLabels", "the label half of MoveElement was not found", "-")
+		return
+	}
+	var labels []ssa.Value
+	for _, b := range f.Blocks {
+		for _, in := range b.Instrs {
+			if ex, ok := in.(*ssa.Extract); ok && ex.Index == 0 {
+				if c, ok := ex.Tuple.(*ssa.Call); ok && methodNameOf(c) == "GetLabelAtPoint" {
+					labels = append(labels, ex)
+				}
+			}
+		}
+	}
+	if len(labels) != 2 {
+		r.undecided("moveElementInLabels:labels", fmt.Sprintf("expected the labels at the old and the new position (2 look-ups), found %d", len(labels)))
+		return
+	}
+	oldL, newL := labels[0], labels[1]
+	isPut := func(in ssa.Instruction) bool {
+		c, ok := in.(ssa.CallInstruction)
+		return ok && w.performs(in, []string{"putBatchElements"}, 2) && c != nil
+	}
+	for _, tc := range []struct {
+		name              string
+		eq, oldNZ, newNZ bool
+	}{
+		{"same-body", true, true, true},
+		{"body-to-background", false, true, false},
+		{"background-to-body", false, false, true},
+		{"body-to-other-body", false, true, true},
+	} {
+		env := &AEnv{Atom: func(v ssa.Value) (AVal, bool) {
+			// the consistent state: the old body's list does hold the element (delete reports a change)
+			if ex, ok := v.(*ssa.Extract); ok && ex.Index == 1 {
+				if c, ok := ex.Tuple.(*ssa.Call); ok && methodNameOf(c) == "delete" {
+					return aBool(true), true
+				}
+			}
+			bo, ok := v.(*ssa.BinOp)
+			if !ok || (bo.Op != token.EQL && bo.Op != token.NEQ) {
+				return unknown, false
+			}
+			x, y := stripConv(bo.X), stripConv(bo.Y)
+			val, known := false, false
+			switch {
+			case (x == oldL && y == newL) || (x == newL && y == oldL):
+				val, known = tc.eq, true
+			case x == oldL || y == oldL:
+				other := y
+				if y == oldL {
+					other = x
+				}
+				if k, isK := constInt(other); isK && k == 0 {
+					val, known = !tc.oldNZ, true
+				}
+			case x == newL || y == newL:
+				other := y
+				if y == newL {
+					other = x
+				}
+				if k, isK := constInt(other); isK && k == 0 {
+					val, known = !tc.newNZ, true
+				}
+			}
+			if !known {
+				return unknown, false
+			}
+			if bo.Op == token.NEQ {
+				val = !val
+			}
+			return aBool(val), true
+		}}
+		s := runSCCP(f, env)
+		// start after the second look-up so that "no synced labels" exits do not count
+		start := newL.(*ssa.Extract).Tuple.(*ssa.Call)
+		p := findPath(f, start, isPut, isSuccessExit, s.EdgeFeasible)
+		r.check(p == nil, "moveElementInLabels:"+tc.name+":label-list-written",
+			"every success exit lies behind a write of a label list",
+			"in the case "+tc.name+" the move can succeed without writing any label list: the body's list keeps the element at its old position (or keeps/loses it) while the element store has moved it", w.fpos(f), w.renderPath(p)...)
+	}
 }
